@@ -259,6 +259,35 @@ def c16_jobs(tier):
         J.append(product_job('log-product-m1-vs-m2-k3', 'logger.cpp', dict(ROLE=1, HEAD=0, KSTEPS=3), dict(LOGMODE=1), dict(LOGMODE=2), (1650, 1651), (1600, 1699), unwind=6, timeout=T, steps=5, nch=14, ntr=28))
     return J
 
+def pjob(name, prop, cap=3, K=2, prefix=0, payload=0, limit=2, timeout=600, **d):
+    d.update(dict(CAP=cap, KSTEPS=K, PREFIX=prefix, PAYLOAD=payload, LIMIT=limit, PROP=prop))
+    return Job(name, 'plan.cpp', d, unwind=max(cap + 2, K + 2, 4), unwindset={'nondet_fill.0': 200}, timeout=timeout, prop=(prop * 100, prop * 100 + 99))
+
+def c08_jobs(tier, prop=8):
+    T = 900 if tier == 'quick' else 3600
+    J = []
+    UPD, REACT, EXT = 1, 2, 4
+    if tier == 'quick':
+        J.append(pjob('plan-n3-cap1-upd-l2-edits', prop, cap=1, K=1, prefix=1, limit=2, timeout=T, NST=3, OPS=UPD, EDITS=1, WITNESS_EXTRA=1))
+        J.append(pjob('plan-n2-cap2-upd-l1-edits', prop, cap=2, K=1, prefix=1, limit=1, timeout=T, NST=2, OPS=UPD, EDITS=1, WITNESS_EXTRA=1))
+        J.append(pjob('plan-n2-cap3-upd-l1', prop, cap=3, K=1, prefix=1, limit=1, timeout=T, NST=2, OPS=UPD, EDITS=0))
+        J.append(pjob('plan-n2-cap2-react-l1', prop, cap=2, K=1, prefix=1, limit=1, timeout=T, NST=2, OPS=REACT, EDITS=0))
+        J.append(pjob('plan-n2-cap2-ext-k3', prop, cap=2, K=3, prefix=0, limit=1, timeout=T, NST=2, OPS=EXT, EDITS=0))
+        J.append(pjob('plan-n2-cap1-upd-ext-k2-l1', prop, cap=1, K=2, prefix=1, limit=1, timeout=T, NST=2, OPS=UPD | EXT, EDITS=0))
+        J.append(pjob('plan-n2-cap2-upd-l1-payload', prop, cap=2, K=1, prefix=1, payload=1, limit=1, timeout=T, NST=2, OPS=UPD, EDITS=0))
+    else:
+        for cap in (1, 2, 3, 4, 5):
+            J.append(pjob('plan-n3-cap%d-upd-l2-edits' % cap, prop, cap=cap, K=1, prefix=1, limit=2, timeout=T, NST=3, OPS=UPD, EDITS=1, WITNESS_EXTRA=1))
+        for cap in (1, 2, 3):
+            J.append(pjob('plan-n3-cap%d-react-l2-edits' % cap, prop, cap=cap, K=1, prefix=1, limit=2, timeout=T, NST=3, OPS=REACT, EDITS=1))
+            J.append(pjob('plan-n2-cap%d-all-k2-l1' % cap, prop, cap=cap, K=2, prefix=1, limit=1, timeout=T, NST=2, OPS=UPD | REACT | EXT, EDITS=0))
+        J.append(pjob('plan-n2-cap2-upd-ext-k3-l1', prop, cap=2, K=3, prefix=1, limit=1, timeout=T, NST=2, OPS=UPD | EXT, EDITS=0))
+        J.append(pjob('plan-n3-cap3-all-k3-l1', prop, cap=3, K=3, prefix=0, limit=1, timeout=T, NST=3, OPS=UPD | EXT, EDITS=1))
+        J.append(pjob('plan-n3-cap3-upd-l2-payload-edits', prop, cap=3, K=1, prefix=1, payload=1, limit=2, timeout=T, NST=3, OPS=UPD, EDITS=1))
+        J.append(pjob('plan-n2-cap2-upd-l4-edits', prop, cap=2, K=1, prefix=1, limit=4, timeout=T, NST=2, OPS=UPD, EDITS=1))
+    for j in J: j.weight_gb = 3.0
+    return J
+
 def encoded_functions(job, work, inc):
     """FFSM2 functions reachable from the harness entry point, from the -O0 IR (at -O1 most are inlined into harness())."""
     wd = os.path.join(work, 'fenc-' + re.sub(r'\W', '_', job.name)); os.makedirs(wd, exist_ok=True)
@@ -316,6 +345,14 @@ PROPS = {
                             thorough='K=3..4, plus product interface vs verbose'),
                 outside='recordPlanStatus (never emitted by the library); K beyond the bound',
                 assumptions=['the logger is user code: a recording stub behind the real virtual LoggerInterface']),
+    'C08': dict(range=(800, 899), jobs=lambda t: c08_jobs(t, 8),
+                bounds=dict(quick='3 states + root head, task capacity 1..3, substitution limit 2: one or two symbolic API calls from an arbitrary reachable state (any plan content up to capacity, any success/failure reports, any active state: built by a passive prefix through the public API), plus 3-call histories from construction; every callback may request, report, append, clear; payload {u32,u16} variant',
+                            thorough='capacity 1..5, up to 3 calls from an arbitrary state, 5-call histories, substitution limit 4'),
+                outside='capacity > 5, more than 3 states, longer histories',
+                assumptions=['the log interface is used as an observation channel for requests the library issues on behalf of plan tasks (its faithfulness is C16)', 'succeed()/fail() without argument are not called from the root head (origin would be the invalid id; FFSM2_ASSERT in BitArrayT::set)']),
+    'C09': dict(range=(900, 999), jobs=lambda t: c08_jobs(t, 9),
+                bounds=dict(quick='as C08, with arbitrary prefill of the machine storage', thorough='as C08'), outside='as C08',
+                assumptions=['as C08']),
     'C11': dict(range=(1100, 1199), jobs=c11_machine_jobs, bounds=dict(quick='N<=4, K<=3', thorough='N<=5, K<=4'), outside='as C01'),
 }
 
